@@ -269,7 +269,7 @@ Proof.
   assert (Hr : (length r' <= length r)%nat).
   { destruct (negb (N.shiftr h 4 =? 0)).
     - destruct (32767 <? last + Z.of_N (N.shiftr h 4))%Z.
-      + destruct (c_fid_add c); [|discriminate]. inversion E2; subst. lia.
+      + destruct (c_fid_add c); discriminate.
       + inversion E2; subst. lia.
     - tb E2 E3. destruct a as [v r1]. apply t_vlq_len in E3. inversion E2; subst. lia. }
   apply skip_value_ok in H. destruct H as [H1 [H2 _]].
@@ -331,7 +331,8 @@ Proof.
     [|discriminate].
   destruct (ty =? 0); [discriminate|].
   destruct (negb (N.shiftr h 4 =? 0)).
-  - rewrite Hf. destruct (32767 <? last + Z.of_N (N.shiftr h 4))%Z; cbn [tbind]; apply skip_value_no_panic; assumption.
+  - rewrite Hf. destruct (32767 <? last + Z.of_N (N.shiftr h 4))%Z; cbn [tbind]; [discriminate|].
+    apply skip_value_no_panic; assumption.
   - unfold t_read_vlq. destruct (t_vlq c r 0 0) as [[v r1]| |y|] eqn:E; cbn [tbind]; try discriminate.
     + apply skip_value_no_panic; assumption.
     + exfalso. eapply t_vlq_no_panic; eauto.
@@ -469,8 +470,8 @@ Proof. vm_compute. reflexivity. Qed.
 Lemma w_patched_clean :
   t_skip_top cfg_patched w_set = TErr /\ t_skip_top cfg_patched w_map = TErr /\
   t_skip_top cfg_patched w_double = TErr /\ t_skip_top cfg_patched w_vlq_field = TErr /\
-  (exists s, t_skip_top cfg_patched w_fid = TOk s).
-Proof. vm_compute. repeat split; try reflexivity. eexists; reflexivity. Qed.
+  t_skip_top cfg_patched w_fid = TErr.
+Proof. vm_compute. repeat split; reflexivity. Qed.
 
 (* the same through the footer loader: the complete file *)
 Lemma w_set_file : fst (read_unknown_footer cfg_source_now (wrap_footer w_set)) = TPanic site_unimplemented.
@@ -541,6 +542,89 @@ Proof.
   eexists; split; [reflexivity|]. cbn [c_list_len]. destruct g.
   - intros es buf a0 r. apply list_alloc_bounded_checked. reflexivity.
   - exists w_list_count. split; [reflexivity|]. exists []. left. destruct a, b, d, e, f; vm_compute; reflexivity.
+Qed.
+
+(* the source as scanned HAS every check (after the repairs 142552dbd, 58ae48eb3): the safe side, stated outright.
+   These stop checking when a check disappears from the source: a returning defect. *)
+Theorem source_has_all_reader_checks : current_cfg = Some cfg_patched.
+Proof. reflexivity. Qed.
+
+Theorem footer_safe_current :
+  exists c, current_cfg = Some c /\
+    forall file, out_clean (l_out (load_footer c file)) /\ l_alloc (load_footer c file) <= lenN file + 8.
+Proof.
+  exists cfg_patched. split; [exact source_has_all_reader_checks|]. intros file. split.
+  - apply load_footer_out_clean.
+  - apply footer_alloc_bounded_checked. reflexivity.
+Qed.
+
+Theorem thrift_skip_safe_current :
+  exists c, current_cfg = Some c /\
+    forall buf, out_clean (t_skip_top c buf) /\ (forall s', t_skip_top c buf = TOk s' -> s_alloc s' <= lenN buf).
+Proof.
+  exists cfg_patched. split; [exact source_has_all_reader_checks|]. intros buf.
+  apply thrift_skip_total_safe_checked. repeat split; reflexivity.
+Qed.
+
+Theorem list_alloc_safe_current :
+  exists c, current_cfg = Some c /\
+    forall es buf, (forall x, t_list_alloc c es buf <> TPanic x) /\
+                   (forall a r, t_list_alloc c es buf = TOk (a, r) -> a <= es * lenN buf).
+Proof.
+  exists cfg_patched. split; [exact source_has_all_reader_checks|]. intros es buf. split.
+  - intros x. apply list_alloc_no_panic_checked; reflexivity.
+  - intros a r. apply list_alloc_bounded_checked. reflexivity.
+Qed.
+
+(* ================================================================== uncompressed page body (page_reader.rs) *)
+Theorem page_load_safe_checked chunk_len off usz csz :
+  is_i32 usz -> is_i32 csz -> chunk_len < 2 ^ 64 ->
+  out_clean (p_out (load_page_plain true chunk_len off usz csz)) /\
+  p_alloc (load_page_plain true chunk_len off usz csz) <= chunk_len.
+Proof.
+  unfold is_i32, load_page_plain, usize_of_i32. intros Hu Hc Hl. cbn [andb].
+  change (2 ^ 31)%Z with 2147483648%Z in *. change (2 ^ 64) with 18446744073709551616 in *.
+  change (2 ^ 63) with 9223372036854775808.
+  destruct ((usz <? 0)%Z || (csz <? 0)%Z || negb (usz =? csz)%Z || (Z.of_N chunk_len <? Z.of_N off + csz)%Z) eqn:E.
+  - cbn [p_out p_alloc]. split; [right; reflexivity|lia].
+  - assert (Hz : (0 <= usz /\ 0 <= csz /\ usz = csz /\ Z.of_N off + csz <= Z.of_N chunk_len)%Z) by lia.
+    destruct Hz as [H1 [H2 [H3 H4]]]. subst csz.
+    rewrite Z.mod_small by (change (2 ^ 64)%Z with 18446744073709551616%Z; lia).
+    destruct (9223372036854775808 <=? Z.to_N usz) eqn:E1; [lia|].
+    destruct (18446744073709551616 <=? off + Z.to_N usz) eqn:E2; [lia|].
+    destruct (chunk_len <? off + Z.to_N usz) eqn:E3; [lia|].
+    rewrite N.eqb_refl. cbn [negb p_out p_alloc]. split; [left; eexists; reflexivity|lia].
+Qed.
+
+(* the reader as it is: the four outcomes on a chunk of 100 bytes whose page body starts at offset 20 *)
+Lemma page_load_witnesses :
+  load_page_plain false 100 20 8 10 = mk_paged (TPanic site_copy_len) 8 /\
+  load_page_plain false 100 20 10 (-1) = mk_paged (TPanic site_offset_add) 10 /\
+  load_page_plain false 100 20 2147483647 10 = mk_paged (TPanic site_copy_len) 2147483647 /\
+  load_page_plain false 100 20 (-1) 10 = mk_paged TErr 0 /\
+  load_page_plain false 100 20 10 200 = mk_paged TErr 10 /\
+  load_page_plain false 100 20 10 10 = mk_paged (TOk 30) 10.
+Proof. vm_compute. repeat split; reflexivity. Qed.
+
+Lemma page_load_witnesses_checked :
+  load_page_plain true 100 20 8 10 = mk_paged TErr 0 /\
+  load_page_plain true 100 20 10 (-1) = mk_paged TErr 0 /\
+  load_page_plain true 100 20 2147483647 10 = mk_paged TErr 0 /\
+  load_page_plain true 100 20 10 10 = mk_paged (TOk 30) 10.
+Proof. vm_compute. repeat split; reflexivity. Qed.
+
+Theorem page_load_verdict_current :
+  exists b, TablesFault.page_copy_len_checked = Some b /\
+    (if b
+     then forall chunk_len off usz csz, is_i32 usz -> is_i32 csz -> chunk_len < 2 ^ 64 ->
+            out_clean (p_out (load_page_plain b chunk_len off usz csz)) /\ p_alloc (load_page_plain b chunk_len off usz csz) <= chunk_len
+     else exists chunk_len off usz csz x, is_i32 usz /\ is_i32 csz /\
+            p_out (load_page_plain b chunk_len off usz csz) = TPanic x /\ p_alloc (load_page_plain b chunk_len off usz csz) > 1000 * chunk_len).
+Proof.
+  destruct TablesFault.page_copy_len_checked as [b|] eqn:E; [|discriminate E || fail].
+  exists b. split; [reflexivity|]. destruct b.
+  - intros. apply page_load_safe_checked; assumption.
+  - exists 100, 20, 2147483647%Z, 10%Z, site_copy_len. unfold is_i32. vm_compute. repeat split; congruence.
 Qed.
 
 (* source constants *)
